@@ -99,8 +99,8 @@ theorem i3_step_assign (f : Sem) (j : Job) (cl : Cluster) (s s' : Sys) (_wf : WF
   · rename_i c2 prep has
     cases hs
     obtain ⟨f1, f2, f3, f4⟩ := i3_assignOne j cl s.ctl c2 a prep has (i3_avail_not_missing h4)
-    obtain ⟨e1, e2, e3, e4, e5⟩ := i3_applyCmds_other j cl (actCmds a prep) s.env (i3_actCmds_other a prep)
-    have hall : Sys.allEv { s with ctl := c2, env := applyCmds j cl s.env (actCmds a prep), todo := s.todo ++ [(a, prep)] }
+    obtain ⟨e1, e2, e3, e4, e5⟩ := i3_applyCmds_other j cl (actCmds j a prep) s.env (i3_actCmds_other j a prep)
+    have hall : Sys.allEv { s with ctl := c2, env := applyCmds j cl s.env (actCmds j a prep), todo := s.todo ++ [(a, prep)] }
         = s.allEv := by simp only [Sys.allEv, e3]
     refine i3_mono h3 f2 f3 ?_ ?_ ?_ ?_ ?_ ?_ ?_ ?_ ?_ ?_ ?_
     · intro ds h hm
